@@ -138,18 +138,19 @@ def build(repo):
     u.replace_in(SC, 'R37:parse-u8', r'(\w+\[\d+\])\.parse::<u8>\(\)', r'str_parse_u8(\1)', 2)
     u.replace_in(GC, 'R15:to_string', r'self\.code\.to_string\(\)', 'class_to_string(&self.code)')
     u.contract(DF, '''        ensures r is Ok ==> fmt_out(*final(f)) == fmt_out(*old(f)) + dotted(u8_of_class(*self))''', props=PROPS)
-    u.after(DF, r'let detail_code = [^;]*;', '''        proof {
+    u.after(DF, r'let (?:class_code|detail_code) = [^;]*;', '''        proof {
             assert((0xE0u8 & code) >> 5 == code / 32) by (bit_vector);
             assert(0x1Fu8 & code == code % 32) by (bit_vector);
-        }''')
+        }''', nth=1, count=2)
     u.contract(SC, '''        requires code_text_ok(code@)
         ensures final(self).code == class_of_u8(code_text_byte(code@)), final(self).ver_type_tkl == old(self).ver_type_tkl, final(self).message_id == old(self).message_id''', props=PROPS)
     u.before(SC, r'self\.code =', '''        proof {
             assert(class_code < 8 && detail_code < 32 ==> 0xF8u8 & class_code == 0 && 0xE0u8 & detail_code == 0 && (class_code << 5 | detail_code) == class_code * 32 + detail_code) by (bit_vector);
         }''')
-    u.before(SC, r'assert\(0xF8 & class_code == 0\);', '''        proof {
+    # after both values are parsed (whatever their order), before the runtime assertions (whatever their order)
+    u.after(SC, r'let (?:class_code|detail_code) = [^;]*;', '''        proof {
             assert(class_code < 8 && detail_code < 32 ==> 0xF8u8 & class_code == 0 && 0xE0u8 & detail_code == 0) by (bit_vector);
-        }''')
+        }''', nth=1, count=2)
     u.contract(GC, '        ensures r@ == dotted(u8_of_class(self.code))', props=PROPS)
     u.probe('theorem_dotted_roundtrip')
     u.finish(common.HEAD)
